@@ -797,6 +797,22 @@ class World:
                     f.write(b"F" * op.get("size", 10))
                 t = self.clock.now + op.get("age", 0)
                 os.utime(p, ns=(t, t))
+        elif kind == "EDIT_CONFIG":
+            # the documented way to change the size of an existing cache: edit file_cache_config.json
+            import json as _json
+            p = CACHE_DIR + "/file_cache_config.json"
+            obs.result = None
+            if self.fs.h_exists(p):
+                try:
+                    with open(p, "rt") as f:
+                        cfg = _json.load(f)
+                except ValueError:
+                    cfg = None
+                if isinstance(cfg, dict) and "size_gb" in cfg:
+                    cfg["size_gb"] = op["size"] / 1e9
+                    with open(p, "wt") as f:
+                        f.write(_json.dumps(cfg, indent=4))
+                    obs.result = op["size"]
         elif kind == "RES_UPDATE":
             self.store.update(op["res"])
             self.sync_remote_files()
